@@ -101,6 +101,10 @@ def c04_gen(rng):
     lim = 8 if d == 2 else 4
     ws = [rng.choice(WIDTHS[:9]) for _ in range(d)]
     axes = [gen1.fixed_json(w, 0, 0, shift=rng.choice([0.0, 0.0, 0.5 * w]), adaptive=True, align=rng.random() < 0.8) for w in ws]
+    share = rng.random() < 0.15
+    if share:       # the same adaptive binning object given once for all axes
+        ws = [ws[0]] * d
+        axes = [axes[0]] * d
     steps = []
     for _ in range(rng.randint(1, 6)):
         if rng.random() < 0.5:
@@ -113,11 +117,13 @@ def c04_gen(rng):
             rows = [[x if abs(x) < lim * w else (x / abs(x)) * (lim - 1) * w for x, w in zip(r, ws)] for r in rows]
             steps.append({"t": "fill_n", "rows": [[rs(x) for x in r] for r in rows],
                           "ws": None if rng.random() < 0.7 else [rs(rng.choice([1, 2, 0.5])) for _ in rows]})
-    return c04_build({"axes": axes, "steps": steps, "ws": [rs(w) for w in ws]})
+    return c04_build({"axes": axes, "steps": steps, "ws": [rs(w) for w in ws], "share": share})
 
 
 def c04_build(src):
     ops = [{"op": "empty", "out": 0, "axes": src["axes"]}]
+    if src.get("share"):
+        ops[0]["share"] = True
     allv = []
     for s in src["steps"]:
         if s["t"] == "fill":
@@ -128,7 +134,8 @@ def c04_build(src):
             allv += s["rows"]
     for v in allv:
         ops.append({"op": "find_bin", "h": 0, "v": v})
-    return {"kind": "histn", "fuel": 64, "ops": ops, "tags": ["nd", f"d:{len(src['axes'])}"], "src": src}
+    return {"kind": "histn", "fuel": 64, "ops": ops, "tags": ["nd", f"d:{len(src['axes'])}"] + (["one_binning_object_for_all_axes"] if src.get("share") else []),
+            "src": src}
 
 
 def c04_shrink(case):
